@@ -148,7 +148,8 @@ def run_blocks(r, case):
     gibbs_ok = case["subject"] == "dist" or cfg.get("data") in ("R", "pos")
     for rows in (2, 3, 5):
         nn_ = n + (1 if rows == 3 else 0)          # 1501 draws: not a multiple of 3
-        ctx = torch.randn(rows, w, generator=g) * 2.0
+        cshape = dzoo.dist_meta(cfg)["ctx_shape"] if case["subject"] == "dist" else [w]
+        ctx = torch.randn([rows] + list(cshape), generator=g) * 2.0
         torch.manual_seed(seed + rows)
         try:
             with torch.no_grad():
@@ -165,7 +166,7 @@ def run_blocks(r, case):
 
         def lp(x, i):
             with torch.no_grad():
-                return obj.log_prob(x, ctx[i:i + 1].expand(x.shape[0], -1)).double()
+                return obj.log_prob(x, ctx[i:i + 1].expand(x.shape[0], *ctx.shape[1:])).double()
         crit = 3.2724 * (2.0 / nn_) ** 0.5
         separated = False
         for i in range(rows):
